@@ -101,7 +101,10 @@ def run(repo: Repo, rep: Report, tier: str) -> None:
     _r07_4(repo, rep, tier)
     _r07_5(repo, rep)
     _r07_6(repo, rep)
-
+    # rules of sibling properties that are necessary conditions of this one as well (same rule ids)
+    from ..core.report import Only
+    from . import c16 as _c16
+    _c16.run(repo, Only(rep, {"R16.1"}), tier)
 
 def _r07_4(repo: Repo, rep: Report, tier: str) -> None:
     fi = repo.func(M_BUILDER, "CodeBuilder._add_unpack_method_lines")
